@@ -28,6 +28,9 @@ def cases(tier, seed):
             for op in ('clone', 'detach', 'cpu', 'to_same', 'numpy', 'to_noargs', 'to_devonly'):
                 cs.append({'scen': 'copies', 's': dict(s, op=op)})
             cs.append({'scen': 'copies', 's': dict(s, op='to_devonly', form='devobj')})
+            if dt in ('float64', 'complex128'):
+                for op in ('clone', 'detach', 'cpu', 'to_same', 'to_noargs'):
+                    cs.append({'scen': 'copies', 's': dict(s, op=op, then_set_core=True)})
             other = {'float64': 'float32', 'float32': 'float64', 'complex128': 'complex64', 'complex64': 'complex128'}[dt]
             for form in ('dev_dtype_kw', 'dev_dtype_pos', 'devobj_dtype', 'none_dtype'):
                 cs.append({'scen': 'copies', 's': dict(s, op='to_other', to=other, form=form)})
@@ -84,7 +87,7 @@ def sig(case, label):
     sc = case['scen']
     lab = label.rstrip('0123456789')
     if sc == 'copies':
-        return 'copies:%s:%s:%s' % (s['op'], 'ttm' if 'M' in s else 'tt', lab)
+        return 'copies:%s:%s%s:%s' % (s['op'], 'ttm' if 'M' in s else 'tt', ':then_set_core' if s.get('then_set_core') else '', lab)
     return '%s:%s:%s' % (sc, 'ttm' if ('M' in s or s.get('ttm')) else 'tt', lab)
 
 
